@@ -75,6 +75,10 @@ func (self *fieldMap) SetIfNotExist(f fieldID, ft FieldMaskType, black bool) (s 
 }
 
 func (self *fieldMap) Get(f fieldID) (ret *FieldMask) {
+	if self == nil {
+		// a mask without a field table (a list or map mask, e.g. one decoded from JSON)
+		return nil
+	}
 	if f >= 0 && f <= _MaxFieldIDHead {
 		ret = self.head[f]
 	} else {
